@@ -203,7 +203,13 @@ func RunFamily(f *Family, tier string) int {
 						m["unit_"+k] = v
 					}
 				}
-				if r.I >= 1 && r.I <= len(e.Texts) && e.Out != nil && r.I <= len(e.Out.Res) {
+				if f.Judge == "yaml" && r.I >= 1 && r.I <= len(e.Texts) && e.Out != nil && 3*r.I <= len(e.Out.Res) {
+					m["doc"] = e.Texts[r.I-1]
+					for k, nm := range []string{"json", "yamlflow", "yamlblock"} {
+						x := e.Out.Res[3*(r.I-1)+k]
+						m[nm] = map[string]any{"err": x.Err, "msg": x.Msg, "dump": x.Dump}
+					}
+				} else if r.I >= 1 && r.I <= len(e.Texts) && e.Out != nil && r.I <= len(e.Out.Res) {
 					m["doc"] = e.Texts[r.I-1]
 					m["msg"] = e.Out.Res[r.I-1].Msg
 					m["dump"] = e.Out.Res[r.I-1].Dump
@@ -217,7 +223,28 @@ func RunFamily(f *Family, tier string) int {
 	// --- confirm violations by re-execution as singleton programs ---
 	confirmed := 0
 	var vlines []string
-	if len(viols) > 0 {
+	if len(viols) > 0 && f.Judge == "yaml" {
+		// three results per document; programs are singletons already, nothing to re-pack
+		for _, v := range viols {
+			confirmed++
+			if len(vlines) < 10 {
+				i := v.rep.I - 1
+				var parts []string
+				for k := 0; k < 3 && 3*i+k < len(v.e.Out.Res); k++ {
+					r := v.e.Out.Res[3*i+k]
+					parts = append(parts, fmt.Sprintf("%s: err=%v (%s) dump=%s", []string{"json", "yaml-flow", "yaml-block"}[k], r.Err, r.Msg, r.Dump))
+				}
+				rp := &Replay{Property: f.Prop, Kind: "json-vs-yaml", Unit: v.e.Unit.Raw, DocIndex: v.rep.I, Schema: v.e.Schema,
+					Options: v.e.Unit.Opts(), Document: v.e.Texts[i], Expected: "same verdict and decoded value through both paths",
+					Observed: v.rep.Obs, Detail: strings.Join(parts, " | "), HowTo: "bin/vcheck replay " + f.Prop + " <this file>"}
+				p, err := writeReplay(rp, fmt.Sprintf("seed%d-unit%d-doc%d", seed, v.e.Unit.Idx, v.rep.I))
+				if err != nil {
+					return infra(f.Prop, err)
+				}
+				vlines = append(vlines, fmt.Sprintf("VIOLATION property=%s replay=%s", f.Prop, p))
+			}
+		}
+	} else if len(viols) > 0 {
 		sort.Slice(viols, func(i, j int) bool { return viols[i].e.Unit.Idx < viols[j].e.Unit.Idx })
 		// distinct units, at most 12
 		var vu []*Unit
@@ -288,8 +315,12 @@ func RunFamily(f *Family, tier string) int {
 				samples = append(samples, map[string]any{"schema": e.Schema, "compiles": false, "compiler": firstLine(e.BuildErr)})
 				continue
 			}
-			j := len(e.Texts) / 2
-			samples = append(samples, map[string]any{"schema": e.Schema, "document": e.Texts[j],
+			d := len(e.Texts) / 2
+			j := d
+			if f.Judge == "yaml" {
+				j = 3 * d
+			}
+			samples = append(samples, map[string]any{"schema": e.Schema, "document": e.Texts[d],
 				"observed_error": e.Out.Res[j].Err, "error_text": e.Out.Res[j].Msg, "remarshalled": e.Out.Res[j].Out})
 		}
 	}
